@@ -159,7 +159,7 @@ theorem C13_xpath (cmp : TextCmp) (a b : Tree) (va : a.validRootFor xpathKeep = 
 /-- Any other pair of nodes (a comment, a PI, a text, an attribute, mixed kinds …): the two nodes
     themselves are compared, with `cmp` on text, attribute value and PI data. -/
 theorem C13_xpath_other (cmp : TextCmp) (a b : Tree)
-    (oa : kidsOrdered a.kids = true) (ob : kidsOrdered b.kids = true) (nb : attrNamesNodup b.kids = true)
+    (oa : orderedKids a.kids = true) (ob : orderedKids b.kids = true) (nb : attrNamesNodup b.kids = true)
     (h : ¬ ((a.value.isElement = true ∧ b.value.isElement = true) ∨ (a.value = .document ∧ b.value = .document))) :
     deepEqualXpath cmp a b = CValue.rel cmp (canon a).value (canon b).value := by
   have : deepEqualXpath cmp a b = compareValue cmp a b := by
@@ -188,7 +188,7 @@ def C13_shallow_ignore_Statement : Prop :=
     nodes' own children have to be well ordered with unique attribute names; the attribute lists
     must have machine size. -/
 theorem C13_shallow_ignore_partial (a b : Tree) (ign : List Nat)
-    (oa : kidsOrdered a.kids = true) (ob : kidsOrdered b.kids = true)
+    (oa : orderedKids a.kids = true) (ob : orderedKids b.kids = true)
     (na : attrNamesNodup a.kids = true) (nb : attrNamesNodup b.kids = true)
     (la : a.attrLen < usizeModulus) (lb : b.attrLen < usizeModulus) (hi : ign.Nodup) :
     shallowEqualIgnoreAttributes a b ign = true ↔
@@ -223,7 +223,7 @@ theorem C13_shallow_ignore_Statement_false : ¬ C13_shallow_ignore_Statement := 
 /-- `shallow_equal` compares the node itself and its attributes (any two nodes, attribute and
     namespace nodes included). -/
 theorem C13_shallow (a b : Tree)
-    (oa : kidsOrdered a.kids = true) (ob : kidsOrdered b.kids = true)
+    (oa : orderedKids a.kids = true) (ob : orderedKids b.kids = true)
     (na : attrNamesNodup a.kids = true) (nb : attrNamesNodup b.kids = true)
     (la : a.attrLen < usizeModulus) (lb : b.attrLen < usizeModulus) :
     shallowEqual a b = true ↔ (canon a).value = (canon b).value := by
